@@ -1,7 +1,8 @@
 package main
 
-// fmtcheck: the pipeline shared by C02 and C03 - GEN trees from spec/GrolSyntax.tla, sources in three
-// styles, seeded random programs, byte-level mutations of the shipped .gr files, function values;
+// fmtcheck: the pipeline shared by C02 and C03 - GEN trees (and, family "source", texts) from spec/GrolSyntax.tla,
+// sources in three styles, seeded random programs, byte-level mutations of the shipped .gr files, function values;
+// each source goes to the printer by the routes of fmtcore.go (ast, repl, modify, line);
 // records made on the real code (fmtcore.go) and judged by spec/Format_Trace.tla.
 
 import (
